@@ -6,8 +6,8 @@ package simrt
 
 import (
 	"fmt"
-	"os"
 	"hash/fnv"
+	"os"
 	"runtime"
 	"sort"
 	"strings"
@@ -489,6 +489,10 @@ func (s *Sim) park(t *Task) {
 
 // Yield is an explicit scheduling point.
 func Yield() { point() }
+
+// RMW is the scheduling point simgen puts between the load and the store of a read-modify-write statement on a
+// struct field or pointer target (x.n++, *p += d).
+func RMW() { point() }
 
 // Current returns the running task or nil.
 func Current() *Task {
